@@ -1,4 +1,7 @@
-import Pyunicorn.Lemmas.Events
+import Pyunicorn.Lemmas.EventsSpec
+import Pyunicorn.Lemmas.EventsReal
+import Pyunicorn.Lemmas.EventsQuantile
+import Pyunicorn.Generated.ArithC16
 /-!
 # C16 — Event synchronisation / coincidence follow their counting rules
 
@@ -40,8 +43,8 @@ theorem es_affine (k c : Rat) (hk : 0 < k) (ex ey : List Rat) (tm : Option Rat) 
 theorem es_shift (c : Rat) (ex ey : List Rat) (tm : Option Rat) (lag : Rat) :
     es (ex.map (· + c)) (ey.map (· + c)) tm lag = es ex ey tm lag := by
   have h := es_affine 1 c (by decide) ex ey tm lag
-  have e1 : affT 1 c = (· + c) := by funext t; simp [affT, Rat.one_mul]
-  have e2 : tm.map ((1 : Rat) * ·) = tm := by cases tm <;> simp [Rat.one_mul]
+  have e1 : affT 1 c = (· + c) := by funext t; simp [affT]
+  have e2 : tm.map ((1 : Rat) * ·) = tm := by cases tm <;> simp
   rw [e1, e2, Rat.one_mul] at h
   exact h
 
@@ -49,7 +52,7 @@ theorem es_shift (c : Rat) (ex ey : List Rat) (tm : Option Rat) (lag : Rat) :
 theorem es_scale (k : Rat) (hk : 0 < k) (ex ey : List Rat) (lag : Rat) :
     es (ex.map (k * ·)) (ey.map (k * ·)) none (k * lag) = es ex ey none lag := by
   have h := es_affine k 0 hk ex ey none lag
-  have e1 : affT k 0 = (k * ·) := by funext t; simp [affT, Rat.add_zero]
+  have e1 : affT k 0 = (k * ·) := by funext t; simp [affT]
   rw [e1] at h
   exact h
 
@@ -57,7 +60,7 @@ theorem es_scale (k : Rat) (hk : 0 < k) (ex ey : List Rat) (lag : Rat) :
 theorem es_scale_window (k : Rat) (hk : 0 < k) (ex ey : List Rat) (m lag : Rat) :
     es (ex.map (k * ·)) (ey.map (k * ·)) (some (k * m)) (k * lag) = es ex ey (some m) lag := by
   have h := es_affine k 0 hk ex ey (some m) lag
-  have e1 : affT k 0 = (k * ·) := by funext t; simp [affT, Rat.add_zero]
+  have e1 : affT k 0 = (k * ·) := by funext t; simp [affT]
   rw [e1] at h
   exact h
 
@@ -154,6 +157,29 @@ example : ∃ a b n, es [0, 1, 2, 4, 6, 7] [0, 1, 3, 4, 6, 8] (some 1) (1/2) = .
   ⟨_, _, _, rfl⟩
 
 
+/-! ## the returned strengths `count / sqrt((lx-2)(ly-2))` over the reals -/
+
+/-- **range of the returned values**: for strictly increasing event times both values
+`countxy / sqrt((lx-2)(ly-2))`, `countyx / sqrt(…)` that `event_synchronization` returns
+lie in `[0, 1]` (real square root; float rounding is outside the model) -/
+theorem es_strength_range (ex ey : List Rat) (tm : Option Rat) (lag : Rat) (a b : Rat) (n : Nat)
+    (hx : List.Pairwise (· < ·) ex) (hy : List.Pairwise (· < ·) ey)
+    (h : es ex ey tm lag = .val a b n) :
+    (0 ≤ strength a n ∧ strength a n ≤ 1) ∧ (0 ≤ strength b n ∧ strength b n ≤ 1) := by
+  obtain ⟨⟨ha0, ha1⟩, ⟨hb0, hb1⟩⟩ := es_range ex ey tm lag a b n hx hy h
+  exact ⟨strength_unit_interval a n ha0 ha1, strength_unit_interval b n hb0 hb1⟩
+
+/-- value of an ES matrix entry -/
+noncomputable def esEntryValue (e : ESEntry) : Option ℝ := e.map fun p => strength p.1 p.2
+
+/-- the model symmetrises the *counts* of a pair; that is the table applied to the two
+returned strengths (`x/c op y/c = (x op y)/c`, both entries of a pair share the norm) -/
+theorem esSymmOp_value (s : Symm) (x y : Rat) (n : Nat) :
+    esEntryValue (esSymmOp s (some (x, n)) (some (y, n)))
+      = some (symmOpR s (strength x n) (strength y n)) := by
+  rw [symmOpR_strength]
+  cases s <;> rfl
+
 /-! ## event coincidence analysis -/
 
 /-- **range**: every rate returned by `event_coincidence_analysis` lies in `[0,1]`
@@ -211,6 +237,47 @@ theorem eca_shift (c : Rat) (e1 e2 : List Rat) (tm lag : Rat) :
   unfold eca
   simp only [List.map_eq_nil_iff, List.length_map, nStart_shift, nEnd_shift,
     ← List.map_drop, ← List.map_take, prec_shift, trig_shift]
+
+/-- **affine invariance of all four coincidence rates**: times `t ↦ k·t + c` (`k > 0`) in
+both series with `taumax ↦ k·taumax`, `lag ↦ k·lag` leave `event_coincidence_analysis`
+unchanged (a change of the time unit; `eca_shift` is `k = 1`) -/
+theorem eca_affine (k c : Rat) (hk : 0 < k) (e1 e2 : List Rat) (tm lag : Rat) :
+    eca (e1.map (affT k c)) (e2.map (affT k c)) (k * tm) (k * lag) = eca e1 e2 tm lag := by
+  have e0 : k * lag + k * tm = k * (lag + tm) := by grind
+  have p0 : ∀ as bs, prec (inWin 0 (k * tm)) (k * lag) (List.map (affT k c) as)
+      (List.map (affT k c) bs) = prec (inWin 0 tm) lag as bs := by
+    intro as bs
+    have := prec_aff k c 0 tm lag hk as bs
+    rwa [Rat.mul_zero] at this
+  have t0 : ∀ as bs, trig (inWin 0 (k * tm)) (k * lag) (List.map (affT k c) as)
+      (List.map (affT k c) bs) = trig (inWin 0 tm) lag as bs := by
+    intro as bs
+    have := trig_aff k c 0 tm lag hk as bs
+    rwa [Rat.mul_zero] at this
+  unfold eca
+  simp only [List.map_eq_nil_iff, List.length_map, inst_aff k tm lag hk, e0, nStart_aff k c hk,
+    nEnd_aff k c hk, ← List.map_drop, ← List.map_take, p0, t0]
+
+/-- the same for the three window types of `_eca_coincidence_rate` -/
+theorem ecaRate_affine (w : Window) (k c : Rat) (hk : 0 < k) (e1 e2 : List Rat) (tm lag : Rat) :
+    ecaRate w (e1.map (affT k c)) (e2.map (affT k c)) (k * tm) (k * lag)
+      = ecaRate w e1 e2 tm lag := by
+  have e0 : k * lag + k * tm = k * (lag + tm) := by grind
+  have ng : -(k * tm) = k * (-tm) := by grind
+  have p0 : ∀ as bs, prec (inWin 0 (k * tm)) (k * lag) (List.map (affT k c) as)
+      (List.map (affT k c) bs) = prec (inWin 0 tm) lag as bs := by
+    intro as bs
+    have := prec_aff k c 0 tm lag hk as bs
+    rwa [Rat.mul_zero] at this
+  have t0 : ∀ as bs, trig (inWin 0 (k * tm)) (k * lag) (List.map (affT k c) as)
+      (List.map (affT k c) bs) = trig (inWin 0 tm) lag as bs := by
+    intro as bs
+    have := trig_aff k c 0 tm lag hk as bs
+    rwa [Rat.mul_zero] at this
+  unfold ecaRate
+  cases w <;>
+  simp only [List.map_eq_nil_iff, List.length_map, inst_aff k tm lag hk, e0, nStart_aff k c hk,
+    nEnd_aff k c hk, ← List.map_drop, ← List.map_take, ng, p0, t0, prec_aff k c _ _ _ hk]
 
 /-- **range** for the three window types of `_eca_coincidence_rate` -/
 theorem ecaRate_range (w : Window) (e1 e2 : List Rat) (tm lag : Rat) (a b : Rate)
@@ -297,6 +364,287 @@ theorem eca_start_slice_eq_time_exclusion (e : List Rat) (h : Rat) (t : List Rat
   simp only [nStart, List.head?_cons]
   exact drop_countP_le_sorted (h + c) (h :: t) hs
 
+/-! ## counting formulas: the code's result *is* the published formula -/
+
+/-- **event synchronisation = its counting formula.**  For all event-time lists, windows
+and lags the model of `event_synchronization` (slices `[1:-1]`, `np.diff`, doubled
+distances `dstxy2`/`tau2`, `np.repeat`-ed outer comparisons, the two double-count loops)
+returns: NaN if a series has no event, `0` if one has at most two, otherwise
+`c(x|y)`, `c(y|x)` of the index-wise published formula `esFormula` (sum over inner event
+pairs of `J_ij` with `τ_ij = ½ min` of the four neighbouring waiting times capped by
+`taumax`, `½` for simultaneous events and for double-counted pairs), with the squared
+norm `(lx-2)(ly-2)`. -/
+theorem es_eq_formula (ex ey : List Rat) (tm : Option Rat) (lag : Rat) :
+    es ex ey tm lag = esSpec ex ey tm lag := by
+  unfold es esSpec
+  simp only [innerEvents_eq_innerEv, countXY_eq_formula]
+  by_cases h1 : ex.length = 0 ∨ (ey.map (· + lag)).length = 0
+  · rw [if_pos h1, if_pos h1]
+  · rw [if_neg h1, if_neg h1]
+    by_cases h2 : ex.length = 1 ∨ ex.length = 2 ∨ (ey.map (· + lag)).length = 1 ∨
+        (ey.map (· + lag)).length = 2
+    · rw [if_pos h2, if_pos (by omega)]
+    · rw [if_neg h2, if_neg (by omega)]
+      congr 1
+      rw [← countXY_swap, countXY_eq_formula]
+
+/-- the second return value is the same formula with the roles of the series exchanged -/
+theorem es_formula_directions (ex ey : List Rat) (tm : Option Rat) (lag : Rat) (a b : Rat)
+    (n : Nat) (h : es ex ey tm lag = .val a b n) :
+    a = esFormula tm ex (ey.map (· + lag)) ∧ b = esFormula tm (ey.map (· + lag)) ex ∧
+      n = (ex.length - 2) * (ey.length - 2) := by
+  rw [es_eq_formula] at h
+  unfold esSpec at h
+  simp only at h
+  split at h
+  · cases h
+  · split at h
+    · cases h
+    · injection h with h1 h2 h3
+      simp only [List.length_map] at h3
+      exact ⟨h1.symm, h2.symm, h3.symm⟩
+
+/-- non-vacuity: the formula is evaluated on six events each (a double-counted pair,
+a simultaneous pair) -/
+example : ∃ a b, esSpec [0, 1, 2, 4, 6, 7] [0, 1, 3, 4, 6, 8] none 0 = .val a b 16 :=
+  ⟨_, _, rfl⟩
+
+/-- the trigger exclusion `[:, :l - n22]` with `n22 = len(e2[e2 >= e2[-1] - lag - taumax])`
+removes, on strictly increasing event times, exactly the events not earlier than
+`e2[-1] - lag - taumax` -/
+theorem eca_end_slice_eq_time_exclusion (e : List Rat) (c : Rat)
+    (hs : List.Pairwise (· < ·) e) :
+    e.take (e.length - nEnd e c) = e.filter fun t => !late e c t :=
+  take_nEnd e c hs
+
+/-- the symmetric-window slice `[n11 : l - n12]` keeps exactly the events that are
+neither early nor late (also when the two excluded sets overlap) -/
+theorem eca_mid_slice_eq_time_exclusion (e : List Rat) (c : Rat)
+    (hs : List.Pairwise (· < ·) e) :
+    (e.take (e.length - nEnd e c)).drop (nStart e c)
+      = e.filter fun t => (!early e c t) && !late e c t :=
+  mid_nStart_nEnd e c hs
+
+/-- **event coincidence analysis = its counting formula.**  On strictly increasing event
+times all four rates of `event_coincidence_analysis` (count-based slices `[n11:]`,
+`[: l - n22]`, …) equal `r = (1/(N-n)) Σ_i Θ[Σ_j 1_[0,ΔT](t_i - t_j - τ)]` over the events
+that are not excluded *by their time* (`t ≤ t_first + τ + ΔT` for precursor rates,
+`t ≥ t_last - τ - ΔT` for trigger rates), `n` the number of excluded events. -/
+theorem eca_eq_formula (e1 e2 : List Rat) (tm lag : Rat)
+    (h1 : List.Pairwise (· < ·) e1) (h2 : List.Pairwise (· < ·) e2) :
+    eca e1 e2 tm lag = ecaFormula e1 e2 tm lag := by
+  unfold eca ecaFormula
+  by_cases h : e1 = [] ∨ e2 = []
+  · rw [if_pos h, if_pos h]
+  · rw [if_neg h, if_neg h]
+    simp only [prec, trig, rateFormula, rateFormulaT, drop_nStart_inst _ _ _ h1,
+      drop_nStart_inst _ _ _ h2, take_nEnd_inst _ _ _ h1, take_nEnd_inst _ _ _ h2]
+    simp only [nStart_inst, nEnd_inst, Int.sub_zero, Int.natCast_zero]
+
+/-- **`_eca_coincidence_rate` = its counting formula** for the three window types
+(`advanced` = precursor, `retarded` = trigger, `symmetric` = window `[-ΔT, ΔT]` with both
+ends of the record excluded; denominator `N - n_start - n_end` as the code normalises) -/
+theorem ecaRate_eq_formula (w : Window) (e1 e2 : List Rat) (tm lag : Rat)
+    (h1 : List.Pairwise (· < ·) e1) (h2 : List.Pairwise (· < ·) e2) :
+    ecaRate w e1 e2 tm lag = ecaRateFormula w e1 e2 tm lag := by
+  unfold ecaRate ecaRateFormula
+  by_cases h : e1 = [] ∨ e2 = []
+  · rw [if_pos h, if_pos h]
+  · rw [if_neg h, if_neg h]
+    cases w
+    · simp only [prec, rateFormula, drop_nStart_inst _ _ _ h1, drop_nStart_inst _ _ _ h2]
+      simp only [nStart_inst, Int.sub_zero, Int.natCast_zero]
+    · simp only [trig, rateFormulaT, take_nEnd_inst _ _ _ h1, take_nEnd_inst _ _ _ h2]
+      simp only [nEnd_inst]
+    · simp only [prec, rateFormula, mid_inst _ _ _ h1, mid_inst _ _ _ h2]
+      simp only [nStart_inst, nEnd_inst]
+
+example : ∃ o, ecaFormula [1, 3, 4] [0, 5] 1 (1/2) = some o := ⟨_, rfl⟩
+example : List.Pairwise (· < ·) ([1, 3, 4] : List Rat) := by decide
+
+/-! ## from time stamps to event times: the hypotheses above are met by the callers -/
+
+/-- `ts[series == 1]` of strictly increasing time stamps is strictly increasing, and the
+default time stamps `0, 1, …, T-1` are strictly increasing: the hypothesis of
+`es_range`, `eca_eq_formula`, … holds for every call with such time stamps -/
+theorem event_times_sorted (ts : List Rat) (b : List Bool) (T : Nat) :
+    (List.Pairwise (· < ·) ts → List.Pairwise (· < ·) (select ts b)) ∧
+    List.Pairwise (· < ·) (select (indexTimes T) b) :=
+  ⟨select_sorted ts b, select_sorted _ b (indexTimes_sorted T)⟩
+
+/-- **range**, stated for the call `event_synchronization(x, y, ts1, ts2, taumax, lag)` -/
+theorem esSeries_range (ts1 ts2 : List Rat) (bx by_ : List Bool) (tm : Option Rat) (lag : Rat)
+    (h1 : List.Pairwise (· < ·) ts1) (h2 : List.Pairwise (· < ·) ts2) (a b : Rat) (n : Nat)
+    (h : esSeries ts1 bx ts2 by_ tm lag = .val a b n) :
+    (0 ≤ a ∧ a * a ≤ (n : Rat)) ∧ (0 ≤ b ∧ b * b ≤ (n : Rat)) :=
+  es_range _ _ tm lag a b n (select_sorted ts1 bx h1) (select_sorted ts2 by_ h2) h
+
+/-- **counting formula**, stated for the call `event_coincidence_analysis(x, y, taumax, ts1,
+ts2, lag)` and `_eca_coincidence_rate` -/
+theorem ecaSeries_eq_formula (ts1 ts2 : List Rat) (bx by_ : List Bool) (tm lag : Rat)
+    (h1 : List.Pairwise (· < ·) ts1) (h2 : List.Pairwise (· < ·) ts2) (w : Window) :
+    ecaSeries ts1 bx ts2 by_ tm lag = ecaFormula (select ts1 bx) (select ts2 by_) tm lag ∧
+    ecaRateSeries w ts1 bx ts2 by_ tm lag
+      = ecaRateFormula w (select ts1 bx) (select ts2 by_) tm lag :=
+  ⟨eca_eq_formula _ _ tm lag (select_sorted ts1 bx h1) (select_sorted ts2 by_ h2),
+   ecaRate_eq_formula w _ _ tm lag (select_sorted ts1 bx h1) (select_sorted ts2 by_ h2)⟩
+
+/-! ## tie to the source text: the model is built from the expressions `translate/gen_arith.py`
+regenerates from `event_series.py` on every run (`Pyunicorn.Generated.ArithC16`)
+
+If a guard, a comparison, the double-count arithmetic, a boundary threshold, a window test
+or the pairing of a count with its denominator changes in the source, the generated
+definition changes and the theorem below no longer type-checks. -/
+
+section generated
+open Pyunicorn.Generated
+
+/-- `event_synchronization`: guards, squared norm and both count formulas are the source's -/
+theorem gen_es (ex ey : List Rat) (tm : Option Rat) (lag : Rat) :
+    es ex ey tm lag =
+      (let ey' := ey.map (· + lag)
+       let xs := innerEvents ex
+       let ys := innerEvents ey'
+       let size : Int := (xs.length * ys.length : Nat)
+       if ArithC16.esNanGuard ex.length ey'.length then .nan
+       else if ArithC16.esZeroGuard ex.length ey'.length then .zero
+       else .val
+         (ArithC16.esCountXY (count2 (axy tm) xs ys)
+            (ArithC16.esEqtime size (size - (count2 eqt xs ys : Nat))) (dblxy tm xs ys))
+         (ArithC16.esCountYX (count2 (ayx tm) xs ys)
+            (ArithC16.esEqtime size (size - (count2 eqt xs ys : Nat))) (dblyx tm xs ys))
+         (ArithC16.esNormSq ex.length ey'.length).toNat) := by
+  have g1 : (ex.length = 0 ∨ (ey.map (· + lag)).length = 0) ↔
+      ((ex.length : Int) = 0 ∨ ((ey.map (· + lag)).length : Int) = 0) := by omega
+  have g2 : (ex.length = 1 ∨ ex.length = 2 ∨ (ey.map (· + lag)).length = 1 ∨
+      (ey.map (· + lag)).length = 2) ↔
+      (((ex.length : Int) = 1 ∨ (ex.length : Int) = 2) ∨
+        ((ey.map (· + lag)).length : Int) = 1 ∨ ((ey.map (· + lag)).length : Int) = 2) := by omega
+  unfold es
+  simp only [ArithC16.esNanGuard, ArithC16.esZeroGuard, ArithC16.esCountXY, ArithC16.esCountYX,
+    ArithC16.esEqtime, ArithC16.esNormSq, countXY, countYX, decide_eq_true_eq, g1, g2]
+  split
+  · rfl
+  · split
+    · rfl
+    · rename_i h1 h2
+      congr 1
+      · simp only [Int.sub_sub_self, Rat.intCast_natCast]; grind
+      · simp only [Int.sub_sub_self, Rat.intCast_natCast]; grind
+      · have : ((ex.length : Int) - 2) * (((ey.map (· + lag)).length : Int) - 2)
+            = (((ex.length - 2) * ((ey.map (· + lag)).length - 2) : Nat) : Int) := by
+          rw [Int.natCast_mul]; congr 1 <;> omega
+        rw [this, Int.toNat_natCast]
+
+/-- the entries of `dstxy2`, `tau2`, `Axy`, `Ayx` and the neighbouring-gap minimum are the
+source's expressions -/
+theorem gen_es_kernel (m : Rat) (p q : Ev) (a b c : Rat) (t : List Rat) :
+    dst2 p q = ArithC16.esDst2 p.1 q.1 ∧
+    tau2 none p q = ArithC16.esTau2 p.2 q.2 ∧
+    tau2 (some m) p q = ArithC16.esTauCap (ArithC16.esTau2 p.2 q.2) m ∧
+    (∀ tm, axy tm p q = ArithC16.esAxy (dst2 p q) (tau2 tm p q)) ∧
+    (∀ tm, ayx tm p q = ArithC16.esAyx (dst2 p q) (tau2 tm p q)) ∧
+    innerEv (a :: b :: c :: t) = (b, ArithC16.esGapMinX (c - b) (b - a)) :: innerEv (b :: c :: t) ∧
+    innerEv (a :: b :: c :: t) = (b, ArithC16.esGapMinY (c - b) (b - a)) :: innerEv (b :: c :: t) := by
+  refine ⟨?_, rfl, rfl, ?_, ?_, rfl, rfl⟩
+  · simp only [dst2, ArithC16.esDst2]; rfl
+  · intro tm
+    simp only [axy, ArithC16.esAxy, Bool.decide_and]
+    rfl
+  · intro tm
+    simp only [ayx, ArithC16.esAyx, Bool.decide_and]
+    congr 1
+
+/-- `event_coincidence_analysis`: the instantaneous switch, the boundary thresholds and the
+window tests are the source's expressions -/
+theorem gen_eca_kernel (lag tm t h a b : Rat) :
+    ArithC16.ecaNotInstant lag tm = !(decide (lag = 0) && decide (tm = 0)) ∧
+    ArithC16.ecaEarly1 t h lag tm = decide (t ≤ h + (lag + tm)) ∧
+    ArithC16.ecaEarly2 t h lag tm = decide (t ≤ h + (lag + tm)) ∧
+    ArithC16.ecaLate1 t h lag tm = decide (h - (lag + tm) ≤ t) ∧
+    ArithC16.ecaLate2 t h lag tm = decide (h - (lag + tm) ≤ t) ∧
+    ArithC16.ecaWin12 (a - b) lag tm = inWin 0 tm (a - b - lag) ∧
+    ArithC16.ecaWinT12 (a - b) lag tm = inWin 0 tm (a - b - lag) ∧
+    ArithC16.ecaWin21 (b - a) lag tm = inWin 0 tm (a - b - lag) ∧
+    ArithC16.ecaWinT21 (b - a) lag tm = inWin 0 tm (a - b - lag) ∧
+    ArithC16.rateSymWin12 (a - b) lag (ArithC16.rateSymLo tm) (ArithC16.rateSymHi tm)
+      = inWin (-tm) tm (a - b - lag) ∧
+    ArithC16.rateSymWin21 (b - a) lag (ArithC16.rateSymLo tm) (ArithC16.rateSymHi tm)
+      = inWin (-tm) tm (a - b - lag) ∧
+    ArithC16.rateSymLate1 t h lag (ArithC16.rateSymLo tm) = decide (h - (lag + tm) ≤ t) := by
+  simp only [ArithC16.ecaNotInstant, ArithC16.ecaEarly1, ArithC16.ecaEarly2, ArithC16.ecaLate1,
+    ArithC16.ecaLate2, ArithC16.ecaWin12, ArithC16.ecaWinT12, ArithC16.ecaWin21,
+    ArithC16.ecaWinT21, ArithC16.rateSymWin12, ArithC16.rateSymWin21, ArithC16.rateSymLo,
+    ArithC16.rateSymHi, ArithC16.rateSymLate1, inWin]
+  refine ⟨?_, ?_, ?_, ?_, ?_, ?_, ?_, ?_, ?_, ?_, ?_, ?_⟩ <;> grind
+
+/-- a rate: NaN for the denominator `0`, else the source's quotient -/
+def mkRate (v : Rat) (d : Int) : Rate := if d = 0 then .nan else .val v
+
+/-- `event_coincidence_analysis`: each count is divided by the denominator the source's
+`return` pairs it with -/
+theorem gen_eca_rates (e1 e2 : List Rat) (tm lag : Rat) :
+    eca e1 e2 tm lag =
+      (if e1 = [] ∨ e2 = [] then none else
+       let inst : Bool := !ArithC16.ecaNotInstant lag tm
+       let n11 := if inst then 0 else nStart e1 (lag + tm)
+       let n12 := if inst then 0 else nEnd e1 (lag + tm)
+       let n21 := if inst then 0 else nStart e2 (lag + tm)
+       let n22 := if inst then 0 else nEnd e2 (lag + tm)
+       let l1 := e1.length
+       let l2 := e2.length
+       let win := inWin 0 tm
+       let p12 := prec win lag (e1.drop n11) e2
+       let t12 := trig win lag e1 (e2.take (l2 - n22))
+       let p21 := prec win lag (e2.drop n21) e1
+       let t21 := trig win lag e2 (e1.take (l1 - n12))
+       some {
+         prec12 := mkRate (ArithC16.ecaRet0 p12 t12 p21 t21 l1 l2 n11 n12 n21 n22) ((l1 : Int) - n11)
+         trig12 := mkRate (ArithC16.ecaRet1 p12 t12 p21 t21 l1 l2 n11 n12 n21 n22) ((l2 : Int) - n22)
+         prec21 := mkRate (ArithC16.ecaRet2 p12 t12 p21 t21 l1 l2 n11 n12 n21 n22) ((l2 : Int) - n21)
+         trig21 := mkRate (ArithC16.ecaRet3 p12 t12 p21 t21 l1 l2 n11 n12 n21 n22) ((l1 : Int) - n12) }) := by
+  have hi : (!ArithC16.ecaNotInstant lag tm) = (decide (lag = 0) && decide (tm = 0)) := by
+    rw [(gen_eca_kernel lag tm 0 0 0 0).1, Bool.not_not]
+  unfold eca
+  simp only [hi, rate, mkRate, ArithC16.ecaRet0, ArithC16.ecaRet1, ArithC16.ecaRet2,
+    ArithC16.ecaRet3, Rat.intCast_natCast]
+
+/-- `_eca_coincidence_rate`: the same for the three window types (`advanced`: `n12 = n22 = 0`) -/
+theorem gen_ecaRate_rates (w : Window) (e1 e2 : List Rat) (tm lag : Rat) :
+    ecaRate w e1 e2 tm lag =
+      (if e1 = [] ∨ e2 = [] then none else
+       let inst : Bool := !ArithC16.ecaNotInstant lag tm
+       let n11 := if inst then 0 else nStart e1 (lag + tm)
+       let n12 := if inst then 0 else nEnd e1 (lag + tm)
+       let n21 := if inst then 0 else nStart e2 (lag + tm)
+       let n22 := if inst then 0 else nEnd e2 (lag + tm)
+       let l1 := e1.length
+       let l2 := e2.length
+       match w with
+       | .advanced =>
+         let c12 := prec (inWin 0 tm) lag (e1.drop n11) e2
+         let c21 := prec (inWin 0 tm) lag (e2.drop n21) e1
+         some (mkRate (ArithC16.rateRet0 c12 c21 l1 l2 n11 0 n21 0) ((l1 : Int) - n11 - 0),
+               mkRate (ArithC16.rateRet1 c12 c21 l1 l2 n11 0 n21 0) ((l2 : Int) - n21 - 0))
+       | .retarded =>
+         let c12 := trig (inWin 0 tm) lag e1 (e2.take (l2 - n22))
+         let c21 := trig (inWin 0 tm) lag e2 (e1.take (l1 - n12))
+         some (mkRate (ArithC16.rateRetardedRet0 c12 c21 l1 l2 0 n12 0 n22) ((l2 : Int) - n22),
+               mkRate (ArithC16.rateRetardedRet1 c12 c21 l1 l2 0 n12 0 n22) ((l1 : Int) - n12))
+       | .symmetric =>
+         let c12 := prec (inWin (-tm) tm) lag ((e1.take (l1 - n12)).drop n11) e2
+         let c21 := prec (inWin (-tm) tm) lag ((e2.take (l2 - n22)).drop n21) e1
+         some (mkRate (ArithC16.rateRet0 c12 c21 l1 l2 n11 n12 n21 n22) ((l1 : Int) - n11 - n12),
+               mkRate (ArithC16.rateRet1 c12 c21 l1 l2 n11 n12 n21 n22) ((l2 : Int) - n21 - n22))) := by
+  have hi : (!ArithC16.ecaNotInstant lag tm) = (decide (lag = 0) && decide (tm = 0)) := by
+    rw [(gen_eca_kernel lag tm 0 0 0 0).1, Bool.not_not]
+  unfold ecaRate
+  cases w <;>
+  simp only [hi, rate, mkRate, ArithC16.rateRet0, ArithC16.rateRet1, ArithC16.rateRetardedRet0,
+    ArithC16.rateRetardedRet1, Rat.intCast_natCast]
+
+end generated
+
 /-! ## N×N matrix -/
 
 /-- entry `[i,j]` of the symmetrised matrix is `op M[i,j] M[j,i]` -/
@@ -340,6 +688,65 @@ theorem esAnalysis_entry (ts : List Rat) (E : Mat Bool) (n : Nat) (tm : Option R
       = esSymmOp s ((esMatrix ts E n tm lag).get none i j) ((esMatrix ts E n tm lag).get none j i) :=
   symmetrize_entry n none none (esSymmOp s) _ i j hi hj
 
+/-- the ECA matrix holds, at `[i,j]` and `[j,i]` (`i < j`), the two rates of
+`_eca_coincidence_rate(column i, column j, window_type)` on the object's time stamps;
+the matrix exists iff no pair raises -/
+theorem ecaMatrix_entry (w : Window) (ts : List Rat) (E : Mat Bool) (n : Nat) (tm lag : Rat)
+    (M : Mat (Option Rat)) (h : ecaMatrix w ts E n tm lag = some M)
+    (i j : Nat) (hij : i < j) (hj : j < n) :
+    ∃ a b, ecaRateSeries w ts (column E i) ts (column E j) tm lag = some (a, b) ∧
+      M.get none i j = rateVal a ∧ M.get none j i = rateVal b := by
+  unfold ecaMatrix at h
+  split at h
+  · rename_i hall
+    injection h with h
+    subst h
+    have hm := List.all_eq_true.1 hall (i, j) ((mem_upperPairs n i j).2 ⟨hij, hj⟩)
+    simp only [Option.isSome_iff_exists] at hm
+    obtain ⟨⟨a, b⟩, hab⟩ := hm
+    refine ⟨a, b, hab, ?_, ?_⟩
+    · rw [assemble_entry _ _ _ _ i j (by omega) hj, if_pos hij, hab]
+    · rw [assemble_entry _ _ _ _ j i hj (by omega), if_neg (by omega), if_pos hij, hab]
+  · cases h
+
+/-- the diagonal of both matrices is the initial zero -/
+theorem matrix_diagonal (w : Window) (ts : List Rat) (E : Mat Bool) (n : Nat) (tmo : Option Rat)
+    (tm lag : Rat) (M : Mat (Option Rat)) (h : ecaMatrix w ts E n tm lag = some M)
+    (i : Nat) (hi : i < n) :
+    M.get none i i = some 0 ∧ (esMatrix ts E n tmo lag).get none i i = some (0, 1) := by
+  unfold ecaMatrix at h
+  split at h
+  · injection h with h
+    subst h
+    unfold esMatrix
+    rw [assemble_entry _ _ _ _ i i hi hi, assemble_entry _ _ _ _ i i hi hi]
+    simp
+  · cases h
+
+/-- `event_series_analysis(method='ECA', symmetrization=s, window_type=w)`: entry `[i,j]`
+is the (NaN-propagating) symmetrisation of the directed entries `[i,j]` and `[j,i]` -/
+theorem ecaAnalysis_entry (w : Window) (ts : List Rat) (E : Mat Bool) (n : Nat) (tm lag : Rat)
+    (s : Symm) (A : Mat (Option Rat)) (h : ecaAnalysis w ts E n tm lag s = some A)
+    (i j : Nat) (hi : i < n) (hj : j < n) :
+    ∃ M, ecaMatrix w ts E n tm lag = some M ∧
+      A.get none i j = symmOpN s (M.get none i j) (M.get none j i) := by
+  unfold ecaAnalysis at h
+  cases hM : ecaMatrix w ts E n tm lag with
+  | none => simp [hM] at h
+  | some M =>
+    simp only [hM, Option.map_some, Option.some.injEq] at h
+    subst h
+    exact ⟨M, rfl, symmetrize_entry n none none (symmOpN s) M i j hi hj⟩
+
+/-- NaN-propagating lift: a non-NaN pair is symmetrised by the table, NaN propagates
+(except under `directed`, which only reads `[i,j]`) -/
+theorem symmOpN_spec (s : Symm) (a b : Rat) :
+    symmOpN s (some a) (some b) = some (symmOp s a b) ∧
+    symmOpN .directed (some a) none = some a ∧
+    (s ≠ .directed → symmOpN s (some a) none = none ∧ symmOpN s none (some b) = none) := by
+  refine ⟨by cases s <;> rfl, rfl, fun hs => ?_⟩
+  cases s <;> first | exact absurd rfl hs | exact ⟨rfl, rfl⟩
+
 /-! ## symmetrisation table -/
 
 theorem symmOp_directed (a b : Rat) : symmOp .directed a b = a := rfl
@@ -356,6 +763,59 @@ theorem symmOp_between (s : Symm) (hs : s = .mean ∨ s = .max ∨ s = .min) (a 
     (ha : lo ≤ a ∧ a ≤ hi) (hb : lo ≤ b ∧ b ≤ hi) :
     lo ≤ symmOp s a b ∧ symmOp s a b ≤ hi := by
   rcases hs with h | h | h <;> subst h <;> simp only [symmOp] <;> grind
+/-- every entry of the directed ECA matrix is NaN or a rate in `[0,1]` -/
+theorem ecaMatrix_range (w : Window) (ts : List Rat) (E : Mat Bool) (n : Nat) (tm lag : Rat)
+    (M : Mat (Option Rat)) (h : ecaMatrix w ts E n tm lag = some M)
+    (i j : Nat) (hi : i < n) (hj : j < n) (r : Rat) (hr : M.get none i j = some r) :
+    0 ≤ r ∧ r ≤ 1 := by
+  rcases Nat.lt_trichotomy i j with hij | hij | hij
+  · obtain ⟨a, b, hab, h1, _⟩ := ecaMatrix_entry w ts E n tm lag M h i j hij hj
+    rw [h1] at hr
+    cases a with
+    | nan => cases hr
+    | val v =>
+      simp only [rateVal, Option.some.injEq] at hr
+      subst hr
+      exact ecaRate_range w _ _ tm lag _ _ hab v (Or.inl rfl)
+  · subst hij
+    rw [(matrix_diagonal w ts E n none tm lag M h i hi).1] at hr
+    simp only [Option.some.injEq] at hr
+    subst hr
+    exact ⟨by decide, by decide⟩
+  · obtain ⟨a, b, hab, _, h2⟩ := ecaMatrix_entry w ts E n tm lag M h j i hij hi
+    rw [h2] at hr
+    cases b with
+    | nan => cases hr
+    | val v =>
+      simp only [rateVal, Option.some.injEq] at hr
+      subst hr
+      exact ecaRate_range w _ _ tm lag _ _ hab v (Or.inr rfl)
+
+/-- **range of the analysis matrix**: under each symmetrisation offered for ECA
+(`directed`, `mean`, `max`, `min`) every entry of `event_series_analysis(method='ECA')`
+is NaN or lies in `[0,1]` -/
+theorem ecaAnalysis_range (w : Window) (ts : List Rat) (E : Mat Bool) (n : Nat) (tm lag : Rat)
+    (s : Symm) (hs : s = .directed ∨ s = .mean ∨ s = .max ∨ s = .min)
+    (A : Mat (Option Rat)) (h : ecaAnalysis w ts E n tm lag s = some A)
+    (i j : Nat) (hi : i < n) (hj : j < n) (r : Rat) (hr : A.get none i j = some r) :
+    0 ≤ r ∧ r ≤ 1 := by
+  obtain ⟨M, hM, hA⟩ := ecaAnalysis_entry w ts E n tm lag s A h i j hi hj
+  rw [hA] at hr
+  rcases hs with rfl | hs
+  · exact ecaMatrix_range w ts E n tm lag M hM i j hi hj r hr
+  · cases ha : M.get none i j with
+    | none => rw [ha] at hr; rcases hs with rfl | rfl | rfl <;> cases hr
+    | some a =>
+      cases hb : M.get none j i with
+      | none => rw [ha, hb] at hr; rcases hs with rfl | rfl | rfl <;> cases hr
+      | some b =>
+        rw [ha, hb, (symmOpN_spec s a b).1] at hr
+        simp only [Option.some.injEq] at hr
+        subst hr
+        exact symmOp_between s hs a b 0 1
+          (ecaMatrix_range w ts E n tm lag M hM i j hi hj a ha)
+          (ecaMatrix_range w ts E n tm lag M hM j i hj hi b hb)
+
 theorem symmOp_max_min_select (a b : Rat) :
     (symmOp .max a b = a ∨ symmOp .max a b = b) ∧ (symmOp .min a b = a ∨ symmOp .min a b = b) := by
   simp only [symmOp]; grind
@@ -411,6 +871,69 @@ theorem resolve_defaults (col : List Rat) :
   · simp only [resolveThreshold, Option.getD]
     rw [if_pos Rat.le_refl]
 
+/-! ## how many samples a quantile threshold can mark -/
+
+/-- the `q`-quantile (NumPy `linear`) lies between the order statistics `⌊(n-1)q⌋` and
+`min(⌊(n-1)q⌋+1, n-1)` of the variable's samples -/
+theorem quantile_between_order_statistics (a : List Rat) (q : Rat) (hne : a ≠ [])
+    (h0 : 0 ≤ q) (h1 : q ≤ 1) :
+    ∃ (hlo : qLo a.length q < (sortedOf a).length) (hhi : qHi a.length q < (sortedOf a).length),
+      (sortedOf a)[qLo a.length q] ≤ quantile a q ∧
+      quantile a q ≤ (sortedOf a)[qHi a.length q] :=
+  quantile_bracket a q hne h0 h1
+
+/-- **`'above'` marks at most `n-1-⌊(n-1)q⌋ = ⌈(n-1)(1-q)⌉` of the `n` samples** of a
+variable thresholded at its `q`-quantile -/
+theorem events_above_quantile_le (a : List Rat) (q : Rat) (hne : a ≠ []) (h0 : 0 ≤ q)
+    (h1 : q ≤ 1) :
+    a.countP (mark (quantile a q) .above) ≤ a.length - 1 - qLo a.length q := by
+  obtain ⟨hlo, _, hb, _⟩ := quantile_bracket a q hne h0 h1
+  have := countP_gt_le_of_sorted (sortedOf a) (sortedOf_pairwise a) _ hlo _ hb
+  rw [sortedOf_length] at this
+  rw [← (sortedOf_perm a).countP_eq]
+  exact this
+
+/-- **`'below'` marks at most `min(⌊(n-1)q⌋+1, n-1) ≤ ⌈(n-1)q⌉ + …` samples** -/
+theorem events_below_quantile_le (a : List Rat) (q : Rat) (hne : a ≠ []) (h0 : 0 ≤ q)
+    (h1 : q ≤ 1) :
+    a.countP (mark (quantile a q) .below) ≤ qHi a.length q := by
+  obtain ⟨_, hhi, _, hb⟩ := quantile_bracket a q hne h0 h1
+  have := countP_lt_le_of_sorted (sortedOf a) (sortedOf_pairwise a) _ hhi _ hb
+  rw [← (sortedOf_perm a).countP_eq]
+  exact this
+
+/-- when `(n-1)q` is an integer `k < n` the threshold is the order statistic `k`:
+at most `k` samples are below and at most `n-1-k` above; in particular the `1`-quantile
+(maximum) marks nothing above and the `0`-quantile (minimum) nothing below -/
+theorem events_at_order_statistic (a : List Rat) (q : Rat) (k : Nat) (hk : k < a.length)
+    (hq : ((a.length : Rat) - 1) * q = (k : Rat)) :
+    a.countP (mark (quantile a q) .below) ≤ k ∧
+    a.countP (mark (quantile a q) .above) ≤ a.length - 1 - k := by
+  have hk' : k < (sortedOf a).length := by rw [sortedOf_length]; exact hk
+  have hv : quantile a q = (sortedOf a)[k] := by
+    rw [quantile_at_order_statistic a q k hq]
+    simp [List.getD_eq_getElem?_getD, List.getElem?_eq_getElem hk']
+  have hb := countP_lt_le_of_sorted (sortedOf a) (sortedOf_pairwise a) k hk' _ (le_of_eq hv)
+  have ha := countP_gt_le_of_sorted (sortedOf a) (sortedOf_pairwise a) k hk' _ (le_of_eq hv.symm)
+  rw [sortedOf_length] at ha
+  rw [← (sortedOf_perm a).countP_eq, ← (sortedOf_perm a).countP_eq (mark (quantile a q) .above)]
+  exact ⟨hb, ha⟩
+
+theorem quantile_extremes_mark_nothing (a : List Rat) (hne : a ≠ []) :
+    a.countP (mark (quantile a 1) .above) = 0 ∧ a.countP (mark (quantile a 0) .below) = 0 := by
+  have hn : 1 ≤ a.length := by
+    cases a with
+    | nil => exact absurd rfl hne
+    | cons _ _ => simp
+  have e1 : ((a.length : Rat) - 1) * 1 = ((a.length - 1 : Nat) : Rat) := by
+    have : ((a.length - 1 : Nat) : Rat) + ((1 : Nat) : Rat) = (a.length : Rat) := by
+      rw [← Rat.natCast_add]; congr 1; omega
+    grind
+  have e0 : ((a.length : Rat) - 1) * 0 = ((0 : Nat) : Rat) := by grind
+  have h1 := (events_at_order_statistic a 1 (a.length - 1) (by omega) e1).2
+  have h0 := (events_at_order_statistic a 0 0 (by omega) e0).1
+  omega
+
 /-- non-vacuity: hypotheses of `resolve_quantile` / `resolve_value` are satisfiable -/
 example : resolveThreshold [1, 5, 2, 4] .quantile (some (3/4)) none
     = .ok (quantile [1, 5, 2, 4] (3/4), (none : Option TType).getD
@@ -418,5 +941,115 @@ example : resolveThreshold [1, 5, 2, 4] .quantile (some (3/4)) none
   resolve_quantile _ _ _ (by grind) (by grind)
 example : resolveThreshold [1, 5, 2, 4] .value (some 3) (some .below) = .ok (3, .below) :=
   resolve_value _ _ _ ⟨2, by simp, by grind⟩ ⟨4, by simp, by grind⟩
+
+/-- **thresholding, whole call.**  If `make_event_matrix` returns, the result has one row
+per sample, and entry `[t,i]` (`i < nvar`) is `mark th ty data[t][i]` for the threshold and
+type the code settled on for variable `i` (`resolveThreshold` on column `i` with the
+`i`-th method / value / type) — with `mark_iff`: exactly the samples strictly beyond. -/
+theorem makeEventMatrix_ok (data : Mat Rat) (nvar : Nat) (ms : List TMethod)
+    (vs : List (Option Rat)) (tys : List (Option TType)) (M : Mat Bool)
+    (h : makeEventMatrix data nvar ms vs tys = .ok M) :
+    M.length = data.length ∧
+    ∀ t i, t < data.length → i < nvar → ∃ th ty,
+      resolveThreshold (dataColumn data i) (ms.getD i .quantile) (vs.getD i none)
+        (tys.getD i none) = .ok (th, ty) ∧
+      M.get false t i = mark th ty ((data.getD t []).getD i 0) := by
+  unfold makeEventMatrix at h
+  cases hthr : (List.range nvar).mapM (fun i =>
+      resolveThreshold (dataColumn data i) (ms.getD i .quantile) (vs.getD i none)
+        (tys.getD i none)) with
+  | error e =>
+    simp only [bind, Except.bind, pure, Except.pure] at h
+    rw [hthr] at h
+    cases h
+  | ok thr =>
+    simp only [bind, Except.bind, pure, Except.pure] at h
+    rw [hthr] at h
+    simp only [Except.ok.injEq] at h
+    subst h
+    obtain ⟨hl, hk⟩ := mapM_ok _ _ _ hthr
+    refine ⟨by simp, ?_⟩
+    intro t i ht hi
+    have hi' : i < thr.length := by simpa [hl] using hi
+    have := hk i (by simpa using hi) hi'
+    simp only [List.getElem_range] at this
+    refine ⟨thr[i].1, thr[i].2, this, ?_⟩
+    simp [Mat.get, List.getD_eq_getElem?_getD, ht, hi, hi']
+
+/-- if `make_event_matrix` raises, it raises the error of the first variable whose
+parameters are rejected (quantile outside `[0,1]` → `ValueError`, value outside the data
+range → `IOError`), and every earlier variable was accepted -/
+theorem makeEventMatrix_error (data : Mat Rat) (nvar : Nat) (ms : List TMethod)
+    (vs : List (Option Rat)) (tys : List (Option TType)) (e : ThrErr)
+    (h : makeEventMatrix data nvar ms vs tys = .error e) :
+    ∃ i, i < nvar ∧
+      resolveThreshold (dataColumn data i) (ms.getD i .quantile) (vs.getD i none)
+        (tys.getD i none) = .error e ∧
+      ∀ i' < i, ∃ p, resolveThreshold (dataColumn data i') (ms.getD i' .quantile)
+        (vs.getD i' none) (tys.getD i' none) = .ok p := by
+  unfold makeEventMatrix at h
+  cases hthr : (List.range nvar).mapM (fun i =>
+      resolveThreshold (dataColumn data i) (ms.getD i .quantile) (vs.getD i none)
+        (tys.getD i none)) with
+  | ok thr =>
+    simp only [bind, Except.bind, pure, Except.pure] at h
+    rw [hthr] at h
+    cases h
+  | error e' =>
+    simp only [bind, Except.bind, pure, Except.pure] at h
+    rw [hthr] at h
+    simp only [Except.error.injEq] at h
+    subst h
+    obtain ⟨k, hk, hfk, hbefore⟩ := mapM_error _ _ _ hthr
+    simp only [List.length_range] at hk
+    simp only [List.getElem_range] at hfk hbefore
+    exact ⟨k, hk, hfk, fun i' hi' => hbefore i' hi'⟩
+
+/-- **thresholding marks exactly the samples beyond the stated quantile**: with method
+`'quantile'`, quantile `q ∈ [0,1]` and an explicit type for every variable, entry `[t,i]`
+is set iff `data[t][i]` is strictly above (`'above'`) / below (`'below'`) the `q`-quantile
+of column `i` -/
+theorem threshold_marks_exactly_quantile (data : Mat Rat) (nvar : Nat) (q : Rat) (ty : TType)
+    (h0 : 0 ≤ q) (h1 : q ≤ 1) (M : Mat Bool)
+    (h : makeEventMatrix data nvar (List.replicate nvar .quantile)
+      (List.replicate nvar (some q)) (List.replicate nvar (some ty)) = .ok M)
+    (t i : Nat) (ht : t < data.length) (hi : i < nvar) :
+    M.get false t i = mark (quantile (dataColumn data i) q) ty ((data.getD t []).getD i 0) := by
+  obtain ⟨_, hM⟩ := makeEventMatrix_ok _ _ _ _ _ M h
+  obtain ⟨th, ty', hr, hm⟩ := hM t i ht hi
+  have e1 : (List.replicate nvar TMethod.quantile).getD i .quantile = .quantile := by
+    simp [List.getD_eq_getElem?_getD, hi]
+  have e2 : (List.replicate nvar (some q)).getD i none = some q := by
+    simp [List.getD_eq_getElem?_getD, hi]
+  have e3 : (List.replicate nvar (some ty)).getD i none = some ty := by
+    simp [List.getD_eq_getElem?_getD, hi]
+  rw [e1, e2, e3, resolve_quantile _ q _ h0 h1] at hr
+  simp only [Except.ok.injEq, Prod.mk.injEq, Option.getD_some] at hr
+  rw [hm, ← hr.1, ← hr.2]
+
+/-- the same for method `'value'` with a value inside every variable's data range -/
+theorem threshold_marks_exactly_value (data : Mat Rat) (nvar : Nat) (x : Rat) (ty : TType)
+    (M : Mat Bool)
+    (h : makeEventMatrix data nvar (List.replicate nvar .value)
+      (List.replicate nvar (some x)) (List.replicate nvar (some ty)) = .ok M)
+    (t i : Nat) (ht : t < data.length) (hi : i < nvar) :
+    M.get false t i = mark x ty ((data.getD t []).getD i 0) := by
+  obtain ⟨_, hM⟩ := makeEventMatrix_ok _ _ _ _ _ M h
+  obtain ⟨th, ty', hr, hm⟩ := hM t i ht hi
+  have e1 : (List.replicate nvar TMethod.value).getD i .quantile = .value := by
+    simp [List.getD_eq_getElem?_getD, hi]
+  have e2 : (List.replicate nvar (some x)).getD i none = some x := by
+    simp [List.getD_eq_getElem?_getD, hi]
+  have e3 : (List.replicate nvar (some ty)).getD i none = some ty := by
+    simp [List.getD_eq_getElem?_getD, hi]
+  rw [e1, e2, e3] at hr
+  simp only [resolveThreshold] at hr
+  split at hr
+  · cases hr
+  · simp only [Except.ok.injEq, Prod.mk.injEq, Option.getD_some] at hr
+    rw [hm, ← hr.1, ← hr.2]
+
+example : (makeEventMatrix [[1, 5], [2, 7], [4, 6], [3, 8]] 2 [.value, .quantile]
+    [some 2, some (3/4)] [some .above, some .below]).toBool = true := by decide +kernel
 
 end Pyunicorn.Events
